@@ -15,7 +15,7 @@ pub mod json;
 
 use serde_json::Value;
 
-pub use json::{Path, Seg};
+pub use json::Path;
 
 /// FRI scalar parameters (the bundle carries them so that C15 can mutate them on both sides).
 #[derive(Clone, Copy, Debug, serde::Serialize, serde::Deserialize)]
@@ -334,7 +334,7 @@ pub mod cfgs {
             Challenge, ChallengeMmcs, Challenger, D, DIGEST_ELEMS, Dft, F, MyCompress, MyHash, MyMmcs, Perm, RATE,
             WIDTH,
         };
-        pub use p3_test_utils::koala_bear_params::{BasedVectorSpace, Field, PrimeCharacteristicRing};
+        pub use p3_test_utils::koala_bear_params::{BasedVectorSpace, PrimeCharacteristicRing};
         use p3_test_utils::koala_bear_params::default_koalabear_poseidon2_16;
         pub const CFG_NAME: &str = "koalabear-d4-w16-zk";
         pub const ZK: bool = true;
